@@ -547,4 +547,279 @@ Section RT.
       cbn [trep]. rewrite Nth. exists js. split; [reflexivity|]. split; [rewrite Kd; exact Ck|].
       apply trepi_as_treps. split; [rewrite Kd; exact Kj|exact T'].
   Qed.
+
+  (** ---- decoding an id-free canonical encoding gives a tree representation of it ------------------ *)
+
+  Lemma combine_cons (Pc : nat -> Prop) n st s1 s2 a1 j V1 t' js V2 :
+    rr_pre Pc st ->
+    (forall x, In x V1 -> Pc x) -> (forall x, In x V2 -> Pc x) -> (forall x, In x V1 -> ~ In x V2) ->
+    rr_ok Pc n st s1 a1 j V1 -> rrs_ok Pc n s1 s2 t' js V2 ->
+    rrs_ok Pc n st s2 (a1 :: t') (j :: js) (V1 ++ V2).
+  Proof.
+    intros Pre Sub1 Sub2 D (F1 & R1 & C1 & V1' & S1 & T1') (F2 & R2 & C2 & V2' & S2 & T2'').
+    pose proof (proj1 F1) as L1. pose proof (proj1 F2) as L2.
+    assert (Lt1 : forall l, grow Pc (length (fst st)) (length (fst s1)) l -> l < length (fst s1)).
+    { intros l [Pl|[_ Hl]]; [|exact Hl]. destruct Pre as [Lt _]. specialize (Lt l Pl). lia. }
+    assert (A2 : agree_on (grow Pc (length (fst st)) (length (fst s1))) (fst s1) (fst s2)).
+    { apply agree_of_frame; assumption. }
+    split; [eapply frame_trans; eauto|]. split; [|split].
+    + constructor.
+      * eapply ref_in_impl; [|exact R1]. intros l. apply grow_mono; lia.
+      * eapply Forall_impl; [|exact R2]. intros r. apply ref_in_impl. intros l. apply grow_mono; lia.
+    + eapply closed_set_equiv with
+        (P := fun l => grow Pc (length (fst st)) (length (fst s1)) l \/ grow Pc (length (fst s1)) (length (fst s2)) l).
+      * intros l. unfold grow, inr. split; [intros [[?|?]|[?|?]]; auto; right; lia|].
+        intros [?|?]; [left; left; assumption|].
+        destruct (Nat.lt_ge_cases l (length (fst s1))); [left; right; lia|right; right; lia].
+      * apply closed_set_union; [eapply closed_set_agree; eauto|exact C2].
+    + exists (V1' ++ V2'). split.
+      * intros x I. apply in_app_or in I. destruct I as [I|I].
+        -- destruct (S1 x I) as [?|?]; [left; apply in_or_app; auto|right; unfold inr in *; lia].
+        -- destruct (S2 x I) as [?|?]; [left; apply in_or_app; auto|right; unfold inr in *; lia].
+      * cbn. exists V1', V2'. split; [reflexivity|]. split.
+        { apply (trep_region (grow Pc (length (fst st)) (length (fst s1))) _ (fst s1)); assumption. }
+        split; [exact T2''|].
+        intros x I1 I2. destruct Pre as [Lt _].
+        destruct (S1 x I1) as [X1|X1], (S2 x I2) as [X2|X2].
+        -- exact (D x X1 X2).
+        -- specialize (Lt x (Sub1 x X1)). unfold inr in X2. lia.
+        -- specialize (Lt x (Sub2 x X2)). unfold inr in X1. lia.
+        -- unfold inr in *. lia.
+  Qed.
+
+  Definition NoP : nat -> Prop := fun _ => False.
+
+  Lemma rr_pre_NoP st : rr_pre NoP st.
+  Proof. split; [intros l []|intros l nd []]. Qed.
+
+  Definition dec_step (f : nat) : Prop :=
+    forall st j st' r, enc_ok f j = true -> decode_aux qp_dec f st j = HOk (st', r) -> rr_ok NoP f st st' r j [].
+
+  Lemma dec_thread f : dec_step f ->
+    forall l st st' rs, forallb (enc_ok f) l = true -> thread_list (decode_aux qp_dec f) st l = HOk (st', rs) ->
+      rrs_ok NoP f st st' rs l [].
+  Proof.
+    intros Step. induction l as [|x l IH]; intros st st' rs Ok E; cbn in E.
+    - injection E as <- <-. split; [apply frame_refl|]. split; [constructor|].
+      split; [apply closed_grow_empty; intros ? ? []|]. exists []. split; [intros ? []|reflexivity].
+    - cbn in Ok. apply andb_prop in Ok. destruct Ok as [Ox Ol].
+      destruct (decode_aux qp_dec f st x) as [[s1 r1]|e] eqn:E1; [|discriminate].
+      destruct (thread_list (decode_aux qp_dec f) s1 l) as [[s2 rs']|e] eqn:E2; [|discriminate].
+      injection E as <- <-.
+      apply (combine_cons NoP f st s1 s2 r1 x [] rs' l []); try (intros ? []).
+      + apply rr_pre_NoP.
+      + apply Step; assumption.
+      + apply IH; assumption.
+  Qed.
+
+  Lemma dec_container f nd nd0 objs1 st l st2 rs :
+    dec_step f -> children nd = rs ->
+    forallb (enc_ok f) l = true ->
+    thread_list (decode_aux qp_dec f) (fst st ++ [nd0], objs1) l = HOk (st2, rs) ->
+    let st' := fill st2 (length (fst st)) nd in
+    frame st st' /\ length (fst st') = length (fst st2) /\ length (fst st) < length (fst st2) /\
+    nth_error (fst st') (length (fst st)) = Some nd /\
+    closed_set (grow NoP (length (fst st)) (length (fst st'))) (fst st') /\
+    exists V0', treps (trep f (fst st')) rs l V0' /\ ~ In (length (fst st)) V0' /\
+                (forall x, In x V0' -> inr (length (fst st)) (length (fst st')) x).
+  Proof.
+    intros Step K Ok ET.
+    destruct (dec_thread f Step _ _ _ _ Ok ET) as (F12 & R2 & C2 & V0' & S2 & T2).
+    destruct (finish_container NoP st (fst st ++ [nd0], objs1) st2 nd0 nd f rs l [] V0'
+                eq_refl (fun l (F : NoP l) => match F with end) F12 K R2 C2 S2 (fun x (F : In x []) => match F with end) T2)
+      as (Fr & Len & Lt2 & Nth & Cl' & T' & NotIn & S').
+    cbn zeta. repeat (split; [assumption|]). exists V0'. repeat (split; [assumption|]).
+    intros x I. destruct (S' x I) as [[]|?]; assumption.
+  Qed.
+
+  Lemma forallb_map_snd {A} (g : A -> bool) (d : list (str * A)) :
+    forallb g (map snd d) = forallb (fun kv => g (snd kv)) d.
+  Proof. induction d as [|kv d IH]; cbn; [reflexivity|]. rewrite IH. reflexivity. Qed.
+
+  Lemma single_assoc {A} (d : list (str * A)) t v : single d = true -> assoc t d = Some v -> d = [(t, v)].
+  Proof.
+    destruct d as [|[k x] [|? ?]]; cbn; try discriminate. intros _.
+    destruct (str_eqb t k) eqn:E; [|discriminate]. apply str_eqb_eq in E. subst. intros H; injection H as ->. reflexivity.
+  Qed.
+
+  Lemma canon_keys_kept ks k : canon_keys ks = true -> In k ks -> kept k = true.
+  Proof.
+    unfold canon_keys. intros C I. apply andb_prop in C. destruct C as [_ F]. rewrite forallb_forall in F. apply F, I.
+  Qed.
+
+  Lemma rr_ok_atom n st a j :
+    enc_atom qp a = HOk j -> rr_ok NoP (S n) st st (RAtom a) j [].
+  Proof.
+    intros E. split; [apply frame_refl|]. split; [exact I|]. split; [apply closed_grow_empty; intros ? ? []|].
+    exists []. split; [intros ? []|]. cbn. split; [exact E|reflexivity].
+  Qed.
+
+  Lemma self_in_grow (Pc : nat -> Prop) a b : a < b -> ref_in (grow Pc a b) (RLoc a).
+  Proof. intros L. right. unfold inr. lia. Qed.
+
+  Lemma self_inr a b : a < b -> inr a b a.
+  Proof. unfold inr. lia. Qed.
+
+  Ltac eval_in E t :=
+    let b := eval vm_compute in t in change t with b in E.
+
+  Lemma dec_all : forall f, dec_step f.
+  Proof.
+    induction f as [|f IH]; intros st j st' r Ok E; [discriminate|].
+    cbn [decode_aux] in E. cbn [enc_ok] in Ok.
+    destruct j as [|b|z|x|s|l|d]; try (injection E as <- <-; apply rr_ok_atom; reflexivity).
+    - (* JArr *)
+      unfold alloc in E. cbn zeta in E.
+      destruct (thread_list (decode_aux qp_dec f) (fst st ++ [NList []], snd st ++ [RLoc (length (fst st))]) l)
+        as [[st2 rs]|e] eqn:ET; [|discriminate].
+      injection E as <- <-.
+      destruct (dec_container f (NList rs) (NList []) _ st l st2 rs IH eq_refl Ok ET)
+        as (Fr & Len & Lt2 & Nth & Cl' & V0' & T' & NotIn & S'); unfold heap in *.
+      split; [exact Fr|]. split; [apply self_in_grow; unfold fill; cbn [fst]; rewrite ?heap_set_length; exact Lt2|]. split; [exact Cl'|].
+      exists (length (fst st) :: V0'). split.
+      + intros x [<-|I]; right; [apply self_inr; unfold fill; cbn [fst]; rewrite ?heap_set_length; exact Lt2|apply S', I].
+      + cbn [trep]. unfold heap in *. rewrite Nth. exists l, V0'. repeat (split; [reflexivity || assumption|]). exact T'.
+    - (* JObj: the decoder's dispatch *)
+      destruct (assoc TAG_BYTES d) as [jb|] eqn:Eb.
+      { destruct jb as [| | | |s| |]; try discriminate. apply andb_prop in Ok. destruct Ok as [Sg Q].
+        apply str_eqb_eq in Q. rewrite (single_assoc _ _ _ Sg Eb). injection E as <- <-.
+        apply rr_ok_atom. cbn. rewrite Q. reflexivity. }
+      destruct (assoc TAG_ID d) as [ji|]; [discriminate|].
+      destruct (has_any [U"py/ref"; U"py/iterator"] d); [discriminate|].
+      destruct (assoc TAG_TYPE d) as [jt|] eqn:Et.
+      { destruct jt as [| | | |p| |]; try discriminate. rewrite (single_assoc _ _ _ Ok Et). injection E as <- <-.
+        apply rr_ok_atom. reflexivity. }
+      destruct (has_any [U"py/repr"; U"py/reduce"] d); [discriminate|].
+      destruct (assoc TAG_OBJECT d) as [jo|] eqn:Eo.
+      { (* a plain object: py/object + py/state *)
+        destruct d as [|[k1 v1] d1]; [discriminate Eo|].
+        destruct d1 as [|[k2 v2] d2]; [destruct v1; discriminate Ok|].
+        destruct d2 as [|? ?]; [|destruct v1; try discriminate Ok; destruct v2; discriminate Ok].
+        destruct v1 as [| | | |c| |]; try discriminate Ok. destruct v2 as [| | | | | |items]; try discriminate Ok.
+        apply andb_prop in Ok. destruct Ok as [Ok Oi]. apply andb_prop in Ok. destruct Ok as [Ok Ck].
+        apply andb_prop in Ok. destruct Ok as [Ok Ne]. apply andb_prop in Ok. destruct Ok as [K1 K2].
+        apply str_eqb_eq in K1, K2. subst k1 k2.
+        vm_compute in Eo. injection Eo as <-.
+        unfold alloc in E. cbn zeta in E.
+        match type of E with context [existsb ?p ?l] => eval_in E (existsb p l) end.
+        match type of E with context [assoc TAG_STATE ?l] => eval_in E (assoc TAG_STATE l) end.
+        cbv iota in E.
+        set (st1 := (fst st ++ [NObj c []], snd st ++ [RLoc (length (fst st))])) in *.
+        destruct (decode_aux qp_dec f st1 (JObj items)) as [[st2 sref]|e] eqn:ES; [|discriminate].
+        destruct (IH _ _ _ _ Oi ES) as (F12 & Rs & Cs & Vs & Ss & Ts).
+        destruct f as [|f']; [discriminate Oi|].
+        cbn [trep] in Ts.
+        destruct sref as [a|sl].
+        { exfalso. destruct Ts as [Ea _]. destruct a; cbn in Ea; try discriminate; injection Ea as <-;
+            vm_compute in Ck; discriminate Ck. }
+        destruct (nth_error (fst st2) sl) as [snd_|] eqn:En; [|contradiction].
+        destruct snd_ as [rs|rs|rs|d0|c0 d0].
+        - exfalso. destruct Ts as (js & V' & Ej & _). discriminate Ej.
+        - exfalso. destruct Ts as (js & Ej & _). injection Ej as ->. vm_compute in Ck. discriminate Ck.
+        - exfalso. destruct Ts as (js & Ej & _). injection Ej as ->. vm_compute in Ck. discriminate Ck.
+        - destruct Ts as (js & Ej & Ck0 & Ti). injection Ej as <-.
+          assert (Sd0 : sort_items d0 = d0).
+          { apply sort_items_sorted. unfold canon_keys in Ck0. apply andb_prop in Ck0. apply Ck0. }
+          rewrite Sd0 in E.
+          destruct (thread_items (re_restore (S f')) st2 d0) as [[st3 attrs]|e] eqn:ET; [|discriminate].
+          injection E as <- <-.
+          apply thread_items_as_list in ET. destruct ET as [ET Ka].
+          apply trepi_as_treps in Ti. destruct Ti as [Kj Tt].
+          pose proof (proj1 F12) as L12. unfold heap in *.
+          set (a1 := length (fst st1)) in *. set (b1 := length (fst st2)) in *.
+          assert (Pre2 : rr_pre (inr a1 b1) st2).
+          { split; [intros l [_ H]; exact H|]. eapply closed_set_equiv; [|exact Cs].
+            intros l. unfold grow, NoP. tauto. }
+          assert (Psl : inr a1 b1 sl) by (destruct Rs as [[]|H]; exact H).
+          assert (Frs : Forall (ref_in (inr a1 b1)) (map snd d0)) by (apply (proj2 Pre2 sl _ Psl En)).
+          assert (SubV : forall x, In x Vs -> inr a1 b1 x) by (intros x I; destruct (Ss x I) as [[]|H]; exact H).
+          destruct (rr_thread (S f') (rr_all (S f')) _ _ _ _ ET (inr a1 b1) f' (map snd items) Vs Pre2 Frs Tt SubV)
+            as (F23 & R3 & C3 & V3 & S3 & T3).
+          pose proof (proj1 F23) as L23. unfold heap in *. fold b1 in L23, R3, C3, S3.
+          set (b3 := length (fst st3)) in *.
+          assert (R3' : Forall (ref_in (grow NoP a1 b3)) (map snd attrs)).
+          { eapply Forall_impl; [|exact R3]. intros r0. apply ref_in_impl. intros l [[? ?]|[? ?]]; right; subst a1 b1 b3; unfold heap, inr in *; lia. }
+          assert (C3' : closed_set (grow NoP a1 b3) (fst st3)).
+          { eapply closed_set_equiv; [|exact C3]. intros l. unfold grow, NoP, inr. split.
+            - intros [[? ?]|[? ?]]; right; subst a1 b1 b3; unfold heap in *; lia.
+            - intros [[]|[? ?]]. destruct (Nat.lt_ge_cases l b1); [left|right]; subst a1 b1 b3; unfold heap in *; lia. }
+          assert (S3' : forall x, In x V3 -> In x [] \/ inr a1 b3 x).
+          { intros x I. right. destruct (S3 x I) as [X|[? ?]]; [apply SubV in X; subst a1 b1 b3; unfold heap, inr in *; lia|subst a1 b1 b3; unfold heap, inr in *; lia]. }
+          destruct (finish_container NoP st st1 st3 (NObj c []) (NObj c attrs) f' (map snd attrs) (map snd items) [] V3
+                      eq_refl (fun l (F : NoP l) => match F with end) (frame_trans _ _ _ F12 F23) eq_refl R3' C3' S3'
+                      (fun x (F : In x []) => match F with end) T3)
+            as (Fr & Len & Lt2 & Nth & Cl' & T' & NotIn & S'); unfold heap in *.
+          split; [exact Fr|]. split; [apply self_in_grow; unfold fill; cbn [fst]; rewrite ?heap_set_length; exact Lt2|]. split; [exact Cl'|].
+          exists (length (fst st) :: V3). split.
+          + intros x [<-|I]; right; [apply self_inr; unfold fill; cbn [fst]; rewrite ?heap_set_length; exact Lt2|]. destruct (S' x I) as [[]|H]; exact H.
+          + cbn [trep]. unfold heap in *. rewrite Nth. exists items, V3.
+            split; [reflexivity|]. split; [reflexivity|]. split; [exact NotIn|].
+            split.
+            { intros ->. cbn in Ka. rewrite <- Ka in Kj. destruct items; [discriminate Ne|discriminate Kj]. }
+            split; [rewrite Ka; exact Ck0|].
+            apply trepi_as_treps. split; [rewrite Ka; exact Kj|].
+            eapply treps_impl; [|exact T']. intros r0 j0 V1 _ T0. apply (trep_mono f' (S f')); [lia|exact T0].
+        - exfalso. destruct Ts as (js & V' & Ej & _). injection Ej as ->. vm_compute in Ck. discriminate Ck. }
+      destruct (has_any [U"py/function"] d); [discriminate|].
+      destruct (assoc TAG_TUPLE d) as [jt|] eqn:Etu.
+      { destruct jt as [| | | | |l|]; try discriminate. apply andb_prop in Ok. destruct Ok as [Sg Ol].
+        rewrite (single_assoc _ _ _ Sg Etu).
+        unfold alloc in E. cbn zeta in E.
+        destruct (thread_list (decode_aux qp_dec f) (fst st ++ [NTuple []], snd st) l) as [[st2 rs]|e] eqn:ET; [|discriminate].
+        injection E as <- <-.
+        destruct (dec_container f (NTuple rs) (NTuple []) _ st l st2 rs IH eq_refl Ol ET)
+          as (Fr & Len & Lt2 & Nth & Cl' & V0' & T' & NotIn & S'); unfold heap in *.
+        split; [exact Fr|]. split; [apply self_in_grow; unfold fill; cbn [fst]; rewrite ?heap_set_length; exact Lt2|]. split; [exact Cl'|].
+        exists V0'. split; [intros x I; right; apply S', I|].
+        cbn [trep]. unfold heap in *. rewrite Nth. exists l. split; [reflexivity|exact T']. }
+      destruct (assoc TAG_SET d) as [js|] eqn:Ese.
+      { destruct js as [| | | | |l|]; try discriminate. apply andb_prop in Ok. destruct Ok as [Sg Ol].
+        rewrite (single_assoc _ _ _ Sg Ese).
+        unfold alloc in E. cbn zeta in E.
+        destruct (thread_list (decode_aux qp_dec f) (fst st ++ [NSet []], snd st) l) as [[st2 rs]|e] eqn:ET; [|discriminate].
+        injection E as <- <-.
+        destruct (dec_container f (NSet rs) (NSet []) _ st l st2 rs IH eq_refl Ol ET)
+          as (Fr & Len & Lt2 & Nth & Cl' & V0' & T' & NotIn & S'); unfold heap in *.
+        split; [exact Fr|]. split; [apply self_in_grow; unfold fill; cbn [fst]; rewrite ?heap_set_length; exact Lt2|]. split; [exact Cl'|].
+        exists V0'. split; [intros x I; right; apply S', I|].
+        cbn [trep]. unfold heap in *. rewrite Nth. exists l. split; [reflexivity|exact T']. }
+      (* a plain dict *)
+      apply andb_prop in Ok. destruct Ok as [Ck Od].
+      assert (Sd : sort_items d = d).
+      { apply sort_items_sorted. unfold canon_keys in Ck. apply andb_prop in Ck. apply Ck. }
+      rewrite Sd in E. unfold alloc in E. cbn zeta in E.
+      destruct (thread_items (decode_aux qp_dec f) (fst st ++ [NDict []], snd st) d) as [[st2 d']|e] eqn:ET; [|discriminate].
+      injection E as <- <-.
+      apply thread_items_as_list in ET. destruct ET as [ET Kd].
+      rewrite <- forallb_map_snd in Od.
+      destruct (dec_container f (NDict d') (NDict []) _ st (map snd d) st2 (map snd d') IH eq_refl Od ET)
+        as (Fr & Len & Lt2 & Nth & Cl' & V0' & T' & NotIn & S'); unfold heap in *.
+      split; [exact Fr|]. split; [apply self_in_grow; unfold fill; cbn [fst]; rewrite ?heap_set_length; exact Lt2|]. split; [exact Cl'|].
+      exists V0'. split; [intros x I; right; apply S', I|].
+      cbn [trep]. unfold heap in *. rewrite Nth. exists d. split; [reflexivity|]. split; [rewrite Kd; exact Ck|].
+      apply trepi_as_treps. split; [rewrite Kd; reflexivity|exact T'].
+  Qed.
+
+  (** ---- the round trip ------------------------------------------------------------------------------ *)
+
+  Theorem roundtrip_idfree fuel h j h' r :
+    enc_ok fuel j = true ->
+    decode_h qp_dec fuel h j = HOk (h', r) ->
+    encode_top qp fuel h' r = HOk j.
+  Proof.
+    unfold decode_h, encode_top. intros Ok D.
+    destruct (decode_aux qp_dec fuel (h, []) j) as [[st' r0]|e] eqn:E; [|discriminate].
+    injection D as <- <-.
+    destruct (dec_all fuel _ _ _ _ Ok E) as (_ & _ & _ & V & _ & T).
+    rewrite (trep_encode fuel (fst st') r0 j V T []); [reflexivity|]. intros x _ [].
+  Qed.
+
+  (** C11_copy_faithful_partial *)
+  Theorem copy_faithful fuel h r j h' r' :
+    encode_top qp fuel h r = HOk j -> enc_ok fuel j = true ->
+    pickle_copy qp qp_dec fuel h r = HOk (h', r') ->
+    encode_top qp fuel h' r' = HOk j.
+  Proof.
+    intros EJ Ok PC. unfold pickle_copy in PC. rewrite EJ in PC. eapply roundtrip_idfree; eauto.
+  Qed.
 End RT.
